@@ -88,14 +88,36 @@ type Party struct {
 	Store *testutil.EphemeralWalletStore
 }
 
+// SlowStore is the reference wallet store with database-like latency on the
+// read the wallet's coin selection makes.
+type SlowStore struct {
+	*testutil.EphemeralWalletStore
+	Latency time.Duration
+}
+
+// UnspentSiacoinElements implements wallet.SingleAddressStore.
+func (s *SlowStore) UnspentSiacoinElements() (types.ChainIndex, []types.SiacoinElement, error) {
+	time.Sleep(s.Latency)
+	return s.EphemeralWalletStore.UnspentSiacoinElements()
+}
+
 // NewParty starts a node with a wallet for key.
 func NewParty(name string, key types.PrivateKey, n *consensus.Network, genesis types.Block) (*Party, error) {
+	return NewPartyLatency(name, key, n, genesis, 0)
+}
+
+// NewPartyLatency is NewParty with a wallet store whose reads take latency.
+func NewPartyLatency(name string, key types.PrivateKey, n *consensus.Network, genesis types.Block, latency time.Duration) (*Party, error) {
 	nd, err := NewNode(name, n, genesis)
 	if err != nil {
 		return nil, err
 	}
 	ws := testutil.NewEphemeralWalletStore()
-	w, err := wallet.NewSingleAddressWallet(key, nd.CM, ws, &testutil.MockSyncer{})
+	var store wallet.SingleAddressStore = ws
+	if latency > 0 {
+		store = &SlowStore{EphemeralWalletStore: ws, Latency: latency}
+	}
+	w, err := wallet.NewSingleAddressWallet(key, nd.CM, store, &testutil.MockSyncer{})
 	if err != nil {
 		return nil, err
 	}
